@@ -100,7 +100,7 @@ func runSibling(m *model.Model, s *ob.Set) {
 				if !ok {
 					continue
 				}
-				cal := c.Call.StaticCallee()
+				cal := model.Unthunk(c.Call.StaticCallee())
 				if cal != nil && m.InDecimalPkg(cal) && twinOf[cal.Name()] != "" {
 					calls = append(calls, c)
 				} else if model.BuiltinName(&c.Call) == "" {
